@@ -13,12 +13,14 @@ LINE = re.compile(r"got=(\d+) bytes=(\d+)/(\d+) eof=(\d) err=(\d+) sent=(\d+) di
 
 def cases_for(chk):
     rng = chk.rng
-    n = 6 if chk.tier == "quick" else 60
-    out = ["real 8000000 1 0 2 200", "real 8000000 0 0 1 300", "real 6000000 1 1 2 300", "real 100 1 0 3 0"]
+    n = 9 if chk.tier == "quick" else 60
+    # (the last field: a send/receive timeout configured on the server - it must not change what is delivered)
+    out = ["real 8000000 1 0 2 200", "real 8000000 0 0 1 300", "real 6000000 1 1 2 300", "real 100 1 0 3 0",
+           "real 8000000 1 1 1 300 250", "real 6000000 0 0 1 300 999", "real 6000000 1 1 2 200 1500"]
     while len(out) < n:
         v11 = rng.randrange(2)      # the library closes after every HTTP/1.0 request, keep-alive or not: one request per 1.0 connection
-        out.append("real %d %d %d %d %d" % (rng.choice([1, 4096, 70000, 1000000, 5000000, 12000000]), v11, rng.randrange(2),
-                                            rng.randrange(1, 4) if v11 else 1, rng.choice([0, 20, 150, 400])))
+        out.append("real %d %d %d %d %d %d" % (rng.choice([1, 4096, 70000, 1000000, 5000000, 12000000]), v11, rng.randrange(2),
+                                               rng.randrange(1, 4) if v11 else 1, rng.choice([0, 20, 150, 400]), rng.choice([0, 0, 1, 250, 999, 1000, 30000])))
     return out
 
 
@@ -30,7 +32,7 @@ def run(chk):
     cases = cases_for(chk)
 
     def one(c):
-        return (c,) + vlib.run_cases(hb, [c], timeout=120)
+        return (c,) + vlib.run_case_retry(hb, c, timeout=120)
     with ThreadPoolExecutor(4) as ex:
         res = list(ex.map(one, cases))
     tot = {"cases": 0, "responses": 0, "bytes": 0}
@@ -39,6 +41,9 @@ def run(chk):
         v11, close_last, nreq = f[2] == "1", f[3] == "1", int(f[4])
         m = LINE.match(out[0]) if out else None
         rep = {"case": c, "harness": "h_real", "result": out[:1]}
+        if out and out[0].startswith("HARNESS-ERROR"):
+            chk.broken.append("harness h_real could not set up its sockets: %s" % out[0][:200])
+            continue
         if not m:
             chk.violation("the server on real sockets crashed or hung: %s rc=%s %s" % (out[:1], rc, err[-300:]), dict(rep, stderr=err[-3000:]), True, "real-crash")
             continue
@@ -63,6 +68,8 @@ RLINE = re.compile(r"threw=(\S+) conns=(\d+) disc=(\d+) witness=(\d+)/(\d+) held
 
 def reset_bad(case, out):
     m = RLINE.match(out[0]) if out else None
+    if out and out[0].startswith("HARNESS-ERROR"):
+        return None
     if not m:
         return "the server on real sockets crashed or hung: %s" % out[:1], "real-crash"
     threw, conns, disc, wit, rounds, held = m.group(1), int(m.group(2)), int(m.group(3)), int(m.group(4)), int(m.group(5)), int(m.group(6))
@@ -88,7 +95,7 @@ def run_reset(chk):
         cases.append("reset %d %d %d" % (rng.choice([5, 10, 20]), rng.choice([0, 1, 5, 20, 40]), rng.randrange(2)))
     tot = 0
     for c in cases:
-        out, rc, err = vlib.run_cases(hb, [c], timeout=120)
+        out, rc, err = vlib.run_case_retry(hb, c, timeout=120)
         bad = reset_bad(c, out)
         if bad:
             chk.violation(bad[0], {"case": c, "harness": "h_real", "result": out[:1], "stderr": err[-2000:]}, True, bad[1])
